@@ -2,7 +2,7 @@
    [process_stmt] call / one do..while round / one advance by the trace semantics. *)
 From Coq Require Import List NArith ZArith Bool Lia.
 From PM Require Import Base.Bytes Base.Outcome Base.Dec Gen.GenConsts Model.ScriptAst Model.Enqueue Model.Script
-  Spec.ScriptSem Proofs.ScriptProofs Proofs.DeviceStmt Proofs.ScriptRefine.
+  Spec.ScriptSem Proofs.ScriptProofs Proofs.ScriptRefine.
 Import ListNotations.
 Local Open Scope Z_scope.
 
@@ -25,6 +25,23 @@ Definition step_obs (now : Z) (d : sdev) (fin : bool) (a' : action) (store' : li
     end
   end.
 
+(* the bytes the model's events say were queued for the device *)
+Definition raw_sent (evs : list ev) : text := flat_map (fun v => match v with EvSent b => b | _ => [] end) evs.
+Lemma raw_sent_app a b : raw_sent (a ++ b) = raw_sent a ++ raw_sent b.
+Proof. apply flat_map_app. Qed.
+Lemma sent_of_app a b : sent_of (a ++ b) = sent_of a ++ sent_of b.
+Proof. apply flat_map_app. Qed.
+Lemma sent_of_sendmap evs : sent_of (flat_map (fun v => match v with EvSent b => [OSend b] | _ => [] end) evs) = raw_sent evs.
+Proof.
+  induction evs as [|v r IH]; [reflexivity|]. cbn [flat_map]. rewrite sent_of_app, IH. destruct v; try reflexivity.
+  cbn [sent_of flat_map raw_sent app]. now rewrite app_nil_r.
+Qed.
+Lemma sent_of_matchmap re buf evs :
+  sent_of (flat_map (fun v => match v with EvMatched n => [OExpect re (firstn n buf)] | _ => [] end) evs) = [].
+Proof. induction evs as [|v r IH]; [reflexivity|]. cbn [flat_map]. rewrite sent_of_app, IH. destruct v; reflexivity. Qed.
+Lemma raw_tele a m : raw_sent (tele a m) = [].
+Proof. unfold tele. destruct (a_tele a); reflexivity. Qed.
+
 Lemma skipn_nth {A} : forall n (l : list A) x, nth_error l n = Some x -> skipn n l = x :: skipn (S n) l.
 Proof.
   induction n as [|n IH]; intros [|y l] x H; cbn [nth_error] in H; try discriminate.
@@ -44,6 +61,29 @@ Proof.
   destruct (text_eqb (ar_node x) node); [discriminate|]. now rewrite IH.
 Qed.
 
+(* ---------- what the parser guarantees about a script (C17 / C18): blocks are not empty, a send format has at most
+   one %s and otherwise only %% (hsprintf is defined on it) ---------- *)
+Definition fmt_valid (fmt : text) : Prop := forall a, hsprintf1 fmt a <> None.
+Fixpoint swf (x : stmt) : Prop :=
+  match x with
+  | Send fmt => fmt_valid fmt
+  | ForeachPlug b | ForeachNode b | IfOn b | IfOff b =>
+      b <> [] /\ (fix go (l : list stmt) : Prop := match l with [] => True | y :: r => swf y /\ go r end) b
+  | _ => True
+  end.
+Definition bwf (b : list stmt) : Prop := b <> [] /\ Forall swf b.
+Lemma swf_go_forall b :
+  (fix go (l : list stmt) : Prop := match l with [] => True | y :: r => swf y /\ go r end) b <-> Forall swf b.
+Proof.
+  induction b as [|x r IH].
+  - split; intros _; [constructor|exact I].
+  - split; intros H.
+    + destruct H as [H1 H2]. constructor; [exact H1|now apply IH].
+    + inversion H; subst. split; [assumption|now apply IH].
+Qed.
+Lemma swf_body x body : (x = ForeachPlug body \/ x = ForeachNode body \/ x = IfOn body \/ x = IfOff body) -> swf x -> bwf body.
+Proof. intros [->|[->|[->| ->]]] H; cbn [swf] in H; destruct H as [H1 H2]; (split; [exact H1|now apply swf_go_forall]). Qed.
+
 Section Sim.
   Variable rmatch : text -> text -> option pmatch.
   Variable compress : list text -> text.
@@ -52,6 +92,8 @@ Section Sim.
   Variable devplugs : list plug.
   Variable script0 : list stmt.                  (* the script of the action and its plug argument *)
   Variable ps0 : option (list plug).
+  Variable args0 : option nat.                   (* its argument table and diagnostics callback *)
+  Variable diag0 : bool.
 
   Notation xstmt := (exec_stmt rmatch compress sc ranged devplugs).
   Notation xblock := (exec_block rmatch compress sc ranged devplugs).
@@ -122,16 +164,19 @@ Section Sim.
     | Some (Send _) | Some (Delay _) | Some (IfOn _) | Some (IfOff _) => c_plugitr e = None
     | Some (ForeachPlug _) | Some (ForeachNode _) => c_processing e = false
     | Some _ => clean e
-    | None => True
+    | None => False
     end.
   Definition plist_ok (e : ctx) : Prop :=
     (forall l, c_pluglist e = Some l -> c_plugs e = Some l) /\
     (ranged = true -> c_plugitr e <> None -> c_pluglist e <> None).
-  Definition lv_ok (e : ctx) : Prop := (block_levels (c_block e) <= 8)%nat.
+  Definition lv_ok (e : ctx) : Prop :=
+    (block_levels (c_block e) <= 8)%nat /\ bwf (c_block e) /\ (ranged = true -> c_plugs e <> None).
   Definition ctx_ok (e : ctx) : Prop := mode_ok e /\ plist_ok e /\ lv_ok e.
 
-  Lemma clean_mode_ok e : clean e -> mode_ok e.
-  Proof. intros [Hp Hi]. unfold mode_ok. destruct (cur e) as [[]|]; auto; split; auto. Qed.
+  Lemma clean_mode_ok e x : clean e -> cur e = Some x -> mode_ok e.
+  Proof. intros [Hp Hi] Hx. unfold mode_ok. rewrite Hx. destruct x; auto; split; auto. Qed.
+  Lemma mode_ok_cur e : mode_ok e -> exists x, cur e = Some x.
+  Proof. unfold mode_ok. destruct (cur e) as [x|]; [eauto|contradiction]. Qed.
 
   (* the outermost context (bottom of the stack) always is the script itself with the action's plugs *)
   Fixpoint base (stack : list ctx) : option ctx :=
@@ -160,10 +205,11 @@ Section Sim.
   Qed.
 
   Definition frame (a : action) : Prop :=
-    is_ranged_com (a_com a) = ranged /\ Forall ctx_ok (a_exec a) /\ a_err a = ACT_ESUCCESS /\ base_ok (a_exec a).
+    is_ranged_com (a_com a) = ranged /\ Forall ctx_ok (a_exec a) /\ a_err a = ACT_ESUCCESS /\ base_ok (a_exec a) /\
+    a_args a = args0 /\ a_hasdiag a = diag0.
 
   Lemma advance_fields a : a_com (advance a) = a_com a /\ a_err (advance a) = a_err a /\ a_args (advance a) = a_args a
-    /\ a_delay_start (advance a) = a_delay_start a.
+    /\ a_hasdiag (advance a) = a_hasdiag a.
   Proof. unfold advance. destruct (a_exec a) as [|e r]; [auto|]. cbv zeta. destruct (cur _); auto. Qed.
 
   Lemma advance_ctx_ok a e rest : a_exec a = e :: rest -> clean e -> plist_ok e -> lv_ok e -> Forall ctx_ok rest ->
@@ -172,7 +218,7 @@ Section Sim.
     intros Ex Hc Hp Hl Hr. unfold advance. rewrite Ex. cbv zeta.
     destruct (cur (set_pos (S (c_pos e)) e)) eqn:Ey; cbn [a_exec set_exec]; [|exact Hr].
     constructor; [|exact Hr]. split; [|split; [exact Hp|exact Hl]].
-    apply clean_mode_ok. exact Hc.
+    eapply clean_mode_ok; [exact Hc|exact Ey].
   Qed.
 
   (* ---------- model state vs semantic state ---------- *)
@@ -184,12 +230,13 @@ Section Sim.
   Definition step_post (now : Z) (d : sdev) (a : action) (s : sst) (fin : bool) (d' : sdev) (a' : action)
              (store' : list arglist) (evs : list ev) : Prop :=
     let o := step_obs now d fin a' store' evs in
+    sd_plugs d' = sd_plugs d /\ sent_of o = raw_sent evs /\
     if fin then
       if Z.eqb (a_err a') ACT_ESUCCESS then
         exists s1, srel s1 d' (advance a') store' /\ frame (advance a') /\
                    after (resid (a_exec a)) s o (resid (a_exec (advance a'))) s1
       else o = [] /\ resid (a_exec a) s [] s Fail
-    else exists s1, srel s1 d' a' store' /\ frame a' /\ after (resid (a_exec a)) s o (resid (a_exec a')) s1.
+    else a_exec a' <> [] /\ exists s1, srel s1 d' a' store' /\ frame a' /\ after (resid (a_exec a)) s o (resid (a_exec a')) s1.
 
   Definition push_post (d : sdev) (a : action) (store : list arglist) (s : sst) (d' : sdev) (a' : action)
              (store' : list arglist) (evs : list ev) : Prop :=
@@ -218,6 +265,8 @@ Section Sim.
     Hypothesis Herr : a_err a = ACT_ESUCCESS.
     Hypothesis Hargs : ss_args s = get_args store a.
     Hypothesis Hbase : base_ok (a_exec a).
+    Hypothesis Ha0 : a_args a = args0.
+    Hypothesis Hd0 : a_hasdiag a = diag0.
 
     Lemma resid_top x : cur e = Some x ->
       resid (a_exec a) = seq (seq (cur_resid e x) (tail_resid e)) (resid rest).
@@ -227,19 +276,19 @@ Section Sim.
     Lemma fin_case x e1 a' d' store' s1 o :
       cur e = Some x -> a_exec a' = e1 :: rest ->
       c_block e1 = c_block e -> c_pos e1 = c_pos e -> c_plugs e1 = c_plugs e -> plist_ok e1 -> clean e1 ->
-      a_err a' = ACT_ESUCCESS -> a_com a' = a_com a ->
+      a_err a' = ACT_ESUCCESS -> a_com a' = a_com a -> a_args a' = a_args a -> a_hasdiag a' = a_hasdiag a ->
       cur_resid e x s o s1 Done ->
       ss_args s1 = get_args store' a' -> ss_xm s1 = model_xm d' ->
       exists s1', srel s1' d' (advance a') store' /\ frame (advance a') /\
                   after (resid (a_exec a)) s o (resid (a_exec (advance a'))) s1'.
     Proof.
-      intros Hx Ea' Eb Ep Epl Hpl Hcl Herr' Hcom Hdone Hsa Hsx.
-      destruct (advance_fields a') as (F1 & F2 & F3 & _).
+      intros Hx Ea' Eb Ep Epl Hpl Hcl Herr' Hcom Hargs' Hdiag' Hdone Hsa Hsx.
+      destruct (advance_fields a') as (F1 & F2 & F3 & F4).
       exists s1. split; [|split].
       - split; [rewrite Hsa; symmetry; apply get_args_same; exact F3|right; exact Hsx].
-      - unfold frame. rewrite F1, F2, Hcom. split; [exact Hrg|]. split; [|split; [exact Herr'|]].
+      - unfold frame. rewrite F1, F2, F3, F4, Hcom, Hargs', Hdiag'. split; [exact Hrg|]. split; [|split; [exact Herr'|split; [|split; assumption]]].
         + apply (advance_ctx_ok a' e1 rest Ea' Hcl Hpl); [|exact Hrest].
-          destruct Hok as (_ & _ & Hl). unfold lv_ok in *. rewrite Eb. exact Hl.
+          destruct Hok as (_ & _ & Hl). unfold lv_ok in *. rewrite Eb, Epl. exact Hl.
         + apply base_advance. rewrite Ea'. apply (base_top e e1 rest Eb Epl). rewrite <- Ex. exact Hbase.
       - rewrite (resid_top x Hx).
         eapply after_incl_r; [apply (resid_advance a' e1 rest Ea' Hcl)|].
@@ -251,12 +300,12 @@ Section Sim.
     Lemma stall_case x e1 a' o s1 :
       cur e = Some x -> a_exec a' = e1 :: rest ->
       c_block e1 = c_block e -> c_pos e1 = c_pos e -> c_plugs e1 = c_plugs e -> ctx_ok e1 ->
-      a_err a' = ACT_ESUCCESS -> a_com a' = a_com a ->
+      a_err a' = ACT_ESUCCESS -> a_com a' = a_com a -> a_args a' = a_args a -> a_hasdiag a' = a_hasdiag a ->
       after (cur_resid e x) s o (cur_resid e1 x) s1 ->
       frame a' /\ after (resid (a_exec a)) s o (resid (a_exec a')) s1.
     Proof.
-      intros Hx Ea' Eb Ep Epl Hok1 Herr' Hcom Haft. split.
-      - unfold frame. rewrite Hcom, Ea'. split; [exact Hrg|]. split; [constructor; assumption|split; [exact Herr'|]].
+      intros Hx Ea' Eb Ep Epl Hok1 Herr' Hcom Hargs' Hdiag' Haft. split.
+      - unfold frame. rewrite Hcom, Ea', Hargs', Hdiag'. split; [exact Hrg|]. split; [constructor; assumption|split; [exact Herr'|split; [|split; assumption]]].
         apply (base_top e e1 rest Eb Epl). rewrite <- Ex. exact Hbase.
       - rewrite (resid_top x Hx), Ea'. cbn [resid]. apply after_seq. unfold ctx_resid.
         assert (Ec : cur e1 = Some x) by (unfold cur in *; rewrite Eb, Ep; exact Hx). rewrite Ec.
@@ -267,22 +316,27 @@ Section Sim.
     (* the statement pushed a context for [body] with plugs ps' *)
     Lemma push_case x e1 a' body ps' :
       cur e = Some x -> a_exec a' = new_ctx body ps' :: e1 :: rest -> body <> [] ->
-      block_levels body = stmt_levels x ->
+      (x = ForeachPlug body \/ x = ForeachNode body \/ x = IfOn body \/ x = IfOff body) ->
       c_block e1 = c_block e -> c_pos e1 = c_pos e -> c_plugs e1 = c_plugs e -> ctx_ok e1 ->
-      a_err a' = ACT_ESUCCESS -> a_com a' = a_com a -> a_args a' = a_args a ->
+      a_err a' = ACT_ESUCCESS -> a_com a' = a_com a -> a_args a' = a_args a -> a_hasdiag a' = a_hasdiag a ->
+      ps' <> None ->
       after (cur_resid e x) s [] (seq (xblock body ps') (cur_resid e1 x)) s ->
       push_post d a store s d a' store [].
     Proof.
-      intros Hx Ea' Hne Hlv Eb Ep Epl Hok1 Herr' Hcom Hargs' Haft.
-      assert (Hin : (stmt_levels x < block_levels (c_block e))%nat).
-      { apply stmt_levels_in. unfold cur in Hx. eapply nth_error_In; exact Hx. }
-      unfold push_post. repeat split; auto.
-      - rewrite Hcom. exact Hrg.
-      - rewrite Ea'. constructor; [|constructor; assumption].
-        split; [apply clean_mode_ok; split; reflexivity|]. split.
-        + split; [intros l Hl; discriminate Hl|intros _ Hn; exfalso; apply Hn; reflexivity].
-        + destruct Hok as (_ & _ & Hl). unfold lv_ok in *. cbn [c_block new_ctx]. lia.
-      - rewrite Ea'. apply base_push. apply (base_top e e1 rest Eb Epl). rewrite <- Ex. exact Hbase.
+      intros Hx Ea' Hne Hkind Eb Ep Epl Hok1 Herr' Hcom Hargs' Hdiag' Hps' Haft.
+      pose proof (body_levels x body Hkind) as Hlv.
+      assert (Hinx : In x (c_block e)) by (unfold cur in Hx; eapply nth_error_In; exact Hx).
+      assert (Hin : (stmt_levels x < block_levels (c_block e))%nat) by (apply stmt_levels_in; exact Hinx).
+      assert (Hbw : bwf body).
+      { destruct Hok as (_ & _ & (_ & (_ & Hf) & _)). rewrite Forall_forall in Hf. exact (swf_body x body Hkind (Hf x Hinx)). }
+      unfold push_post. split; [reflexivity|]. split; [reflexivity|]. split; [reflexivity|]. split; [|split; [exact Hargs'|split]].
+      - unfold frame. rewrite Hcom, Hargs', Hdiag', Herr'. split; [exact Hrg|]. split; [|split; [reflexivity|split; [|split; assumption]]].
+        + rewrite Ea'. constructor; [|constructor; assumption].
+          destruct body as [|x0 b0] eqn:Eb0; [congruence|]. rewrite <- Eb0 in *.
+          split; [apply (clean_mode_ok _ x0); [split; reflexivity|rewrite Eb0; reflexivity]|]. split.
+          * split; [intros l Hl; discriminate Hl|intros _ Hn; exfalso; apply Hn; reflexivity].
+          * destruct Hok as (_ & _ & (Hl & _)). unfold lv_ok. cbn [c_block c_plugs new_ctx]. split; [lia|]. split; [exact Hbw|intros _; exact Hps'].
+        + rewrite Ea'. apply base_push. apply (base_top e e1 rest Eb Epl). rewrite <- Ex. exact Hbase.
       - rewrite (resid_top x Hx), Ea'. cbn [resid].
         assert (Ec : cur e1 = Some x) by (unfold cur in *; rewrite Eb, Ep; exact Hx).
         assert (Et : tail_resid e1 = tail_resid e) by (unfold tail_resid; rewrite Eb, Ep, Epl; reflexivity).
@@ -313,20 +367,22 @@ Section Sim.
       step_obs now d fin a' store' evs = [].
     Proof. intros E1 E2 K. unfold step_obs. rewrite E1, E2. destruct x; try contradiction; reflexivity. Qed.
 
-    Lemma step_post_stall d' a' store' evs :
+    Lemma step_post_stall d' a' store' evs : sd_plugs d' = sd_plugs d ->
+      sent_of (step_obs now d false a' store' evs) = raw_sent evs -> a_exec a' <> [] ->
       (exists s1, srel s1 d' a' store' /\ frame a' /\
                   after (resid (a_exec a)) s (step_obs now d false a' store' evs) (resid (a_exec a')) s1) ->
       step_post now d a s false d' a' store' evs.
-    Proof. intros H. exact H. Qed.
-    Lemma step_post_fin d' a' store' evs : a_err a' = ACT_ESUCCESS ->
+    Proof. intros Hp Hb Hn H. split; [exact Hp|split; [exact Hb|split; [exact Hn|exact H]]]. Qed.
+    Lemma step_post_fin d' a' store' evs : sd_plugs d' = sd_plugs d ->
+      sent_of (step_obs now d true a' store' evs) = raw_sent evs -> a_err a' = ACT_ESUCCESS ->
       (exists s1, srel s1 d' (advance a') store' /\ frame (advance a') /\
                   after (resid (a_exec a)) s (step_obs now d true a' store' evs) (resid (a_exec (advance a'))) s1) ->
       step_post now d a s true d' a' store' evs.
-    Proof. intros He H. unfold step_post. rewrite He, Z.eqb_refl. exact H. Qed.
-    Lemma step_post_fail d' a' store' evs : a_err a' = ACT_EEXPFAIL ->
+    Proof. intros Hp Hb He H. unfold step_post. rewrite He, Z.eqb_refl. split; [exact Hp|split; [exact Hb|exact H]]. Qed.
+    Lemma step_post_fail d' a' store' evs : sd_plugs d' = sd_plugs d -> raw_sent evs = [] -> a_err a' = ACT_EEXPFAIL ->
       step_obs now d true a' store' evs = [] -> resid (a_exec a) s [] s Fail ->
       step_post now d a s true d' a' store' evs.
-    Proof. intros He Ho H. unfold step_post. rewrite He. cbn [Z.eqb ACT_EEXPFAIL ACT_ESUCCESS]. split; assumption. Qed.
+    Proof. intros Hp Hb He Ho H. unfold step_post. rewrite He. cbn [Z.eqb ACT_EEXPFAIL ACT_ESUCCESS]. split; [exact Hp|]. split; [cbv zeta; rewrite Ho, Hb; reflexivity|split; assumption]. Qed.
 
     Lemma len_top e1 a' : a_exec a' = e1 :: rest -> (length (a_exec a') <= length (a_exec a))%nat.
     Proof. intros ->. rewrite Ex. cbn [length]. lia. Qed.
@@ -340,22 +396,24 @@ Section Sim.
       intros Hx Hxm H. pose proof Hok as (Hm & Hpl & Hlv). unfold mode_ok in Hm. rewrite Hx in Hm.
       assert (G : forall (d1 : sdev) (evs1 : list ev) o,
                  flat_map (fun v => match v with EvSent b => [OSend b] | _ => [] end) evs1 = o ->
-                 model_xm d1 = model_xm d -> cur_resid e (Send fmt) s o s Done ->
+                 model_xm d1 = model_xm d -> sd_plugs d1 = sd_plugs d -> cur_resid e (Send fmt) s o s Done ->
                  after (cur_resid e (Send fmt)) s o skip s ->
                  match sd_to d1 with
                  | [] => Ok (true, d1, put_top (set_processing false e) rest a, store, evs1)
                  | _ => Ok (false, d1, put_top (set_processing true e) rest a, store, evs1)
                  end = Ok (fin, d', a', store', evs) ->
                  (length (a_exec a') <= length (a_exec a))%nat /\ step_post now d a s fin d' a' store' evs).
-      { intros d1 evs1 o Ho Hx1 Hdone Haft H1. subst o. destruct (sd_to d1) as [|b0 r0]; injection H1 as <- <- <- <- <-.
+      { intros d1 evs1 o Ho Hx1 Hp1 Hdone Haft H1. subst o. destruct (sd_to d1) as [|b0 r0]; injection H1 as <- <- <- <- <-.
         - split; [apply (len_top (set_processing false e)); reflexivity|].
-          apply step_post_fin; [exact Herr|].
+          apply step_post_fin; [exact Hp1| |exact Herr|].
+          { rewrite (step_obs_eq true (put_top (set_processing false e) rest a) store evs1 (set_processing false e) rest (Send fmt) eq_refl Hx). apply sent_of_sendmap. }
           rewrite (step_obs_eq true (put_top (set_processing false e) rest a) store evs1 (set_processing false e) rest (Send fmt) eq_refl Hx).
           apply (fin_case (Send fmt) (set_processing false e) (put_top (set_processing false e) rest a) d1 store s _ Hx eq_refl eq_refl eq_refl eq_refl Hpl
-                          (conj eq_refl Hm) Herr eq_refl Hdone Hargs).
+                          (conj eq_refl Hm) Herr eq_refl eq_refl eq_refl Hdone Hargs).
           rewrite Hx1. exact Hxm.
         - split; [apply (len_top (set_processing true e)); reflexivity|].
-          apply step_post_stall. exists s. split; [split; [exact Hargs|right; rewrite Hx1; exact Hxm]|].
+          apply step_post_stall; [exact Hp1| |discriminate|].
+          { rewrite (step_obs_eq false (put_top (set_processing true e) rest a) store evs1 (set_processing true e) rest (Send fmt) eq_refl Hx). apply sent_of_sendmap. } exists s. split; [split; [exact Hargs|right; rewrite Hx1; exact Hxm]|].
           rewrite (step_obs_eq false (put_top (set_processing true e) rest a) store evs1 (set_processing true e) rest (Send fmt) eq_refl Hx).
           apply (stall_case (Send fmt) (set_processing true e) (put_top (set_processing true e) rest a) _ s Hx eq_refl eq_refl eq_refl eq_refl); auto.
           split; [unfold mode_ok; change (cur (set_processing true e)) with (cur e); rewrite Hx; exact Hm|split; [exact Hpl|exact Hlv]]. }
@@ -371,8 +429,8 @@ Section Sim.
         { intros tr' s' st (-> & -> & ->). exact Hd. }
         destruct (Nat.ltb _ _).
         + destruct SEND_OVERRUN_ASSERT; [discriminate H|].
-          eapply (G _ _ [OSend str]); [| |exact Hd|exact Ha|exact H]; reflexivity.
-        + eapply (G _ _ [OSend str]); [| |exact Hd|exact Ha|exact H]; [|reflexivity].
+          eapply (G _ _ [OSend str]); [| | |exact Hd|exact Ha|exact H]; reflexivity.
+        + eapply (G _ _ [OSend str]); [| | |exact Hd|exact Ha|exact H]; [|reflexivity|reflexivity].
           cbn [flat_map]. rewrite obs_tele_send. reflexivity.
     Qed.
 
@@ -383,24 +441,25 @@ Section Sim.
       (length (a_exec a') <= length (a_exec a))%nat /\ step_post now d a s fin d' a' store' evs.
     Proof.
       intros Hx H. pose proof Hok as (Hm & Hpl & Hlv). unfold mode_ok in Hm. rewrite Hx in Hm.
-      assert (Hstall : forall d1, step_post now d a s false d1 a store []).
-      { intros d1. apply step_post_stall. exists s. split; [split; [exact Hargs|left; exists e, rest, re; auto]|].
+      assert (Hstall : forall d1, sd_plugs d1 = sd_plugs d -> step_post now d a s false d1 a store []).
+      { intros d1 Hp1. apply step_post_stall; [exact Hp1|rewrite (step_obs_eq false a store [] e rest (Expect re) Ex Hx); reflexivity|rewrite Ex; discriminate|]. exists s. split; [split; [exact Hargs|left; exists e, rest, re; auto]|].
         rewrite (step_obs_eq false a store [] e rest (Expect re) Ex Hx). cbn [flat_map].
-        apply (stall_case (Expect re) e a [] s Hx Ex eq_refl eq_refl eq_refl Hok Herr eq_refl).
+        apply (stall_case (Expect re) e a [] s Hx Ex eq_refl eq_refl eq_refl Hok Herr eq_refl eq_refl eq_refl).
         apply after_tincl. exact (tincl_refl _). }
       unfold process_expect in H. cbn [sd_from set_xm] in H.
       destruct (sd_from d) as [|b0 r0] eqn:Ef.
-      - injection H as <- <- <- <- <-. split; [lia|apply Hstall].
+      - injection H as <- <- <- <- <-. split; [lia|apply Hstall; reflexivity].
       - destruct (rmatch re (nul_to_ff (b0 :: r0))) as [pm|] eqn:Em.
-        + destruct (nth_error pm 0) as [[[so eo]|]|] eqn:E0; injection H as <- <- <- <- <-; try (split; [lia|apply Hstall]).
-          split; [lia|]. apply step_post_fin; [exact Herr|].
+        + destruct (nth_error pm 0) as [[[so eo]|]|] eqn:E0; injection H as <- <- <- <- <-; try (split; [lia|apply Hstall; reflexivity]).
+          split; [lia|]. apply step_post_fin; [reflexivity| |exact Herr|].
+          { rewrite (step_obs_eq true a store _ e rest (Expect re) Ex Hx), sent_of_matchmap. cbn [raw_sent flat_map app]. symmetry. apply raw_tele. }
           rewrite (step_obs_eq true a store _ e rest (Expect re) Ex Hx). cbn [flat_map]. rewrite obs_tele_match. cbn [app].
           apply (fin_case (Expect re) e a _ store (mkSst (ss_args s) (Some (nul_to_ff (b0 :: r0), pm))) _
-                          Hx Ex eq_refl eq_refl eq_refl Hpl Hm Herr eq_refl).
+                          Hx Ex eq_refl eq_refl eq_refl Hpl Hm Herr eq_refl eq_refl eq_refl).
           * unfold cur_resid. rewrite Ef. apply X_expect with (so := so); [discriminate|exact Em|exact E0].
           * exact Hargs.
           * reflexivity.
-        + injection H as <- <- <- <- <-. split; [lia|apply Hstall].
+        + injection H as <- <- <- <- <-. split; [lia|apply Hstall; reflexivity].
     Qed.
 
     (* ----- delay ----- *)
@@ -411,33 +470,35 @@ Section Sim.
     Proof.
       intros Hx Hxm H. pose proof Hok as (Hm & Hpl & Hlv). unfold mode_ok in Hm. rewrite Hx in Hm.
       assert (G : forall (a1 : action) (e1 : ctx) (evs1 : list ev),
-                 a_err a1 = ACT_ESUCCESS -> a_com a1 = a_com a -> a_args a1 = a_args a ->
-                 c_block e1 = c_block e -> c_pos e1 = c_pos e -> c_plugs e1 = c_plugs e -> c_plugitr e1 = None -> plist_ok e1 ->
+                 a_err a1 = ACT_ESUCCESS -> a_com a1 = a_com a -> a_args a1 = a_args a -> a_hasdiag a1 = a_hasdiag a ->
+                 c_block e1 = c_block e -> c_pos e1 = c_pos e -> c_plugs e1 = c_plugs e -> c_plugitr e1 = None -> plist_ok e1 -> raw_sent evs1 = [] ->
                  (if sc || (a_delay_start a1 + us <=? now)
                   then Ok ((true, d, put_top (set_processing false e1) rest a1, store, evs1), @None Z)
                   else Ok ((false, d, put_top e1 rest a1, store, evs1), Some (a_delay_start a1 + us - now)))
                  = Ok ((fin, d', a', store', evs), t) ->
                  (length (a_exec a') <= length (a_exec a))%nat /\ step_post now d a s fin d' a' store' evs).
-      { intros a1 e1 evs1 He1 Hc1 Ha1 Eb Ep Epl Ei Hpl1 H1.
+      { intros a1 e1 evs1 He1 Hc1 Ha1 Hh1 Eb Ep Epl Ei Hpl1 Hraw H1.
         assert (Hargs1 : ss_args s = get_args store a1) by (rewrite Hargs; symmetry; apply get_args_same; exact Ha1).
         assert (Hx1 : cur e1 = Some (Delay us)) by (unfold cur in *; rewrite Eb, Ep; exact Hx).
         destruct (sc || (a_delay_start a1 + us <=? now)) eqn:C; injection H1 as <- <- <- <- <- <-.
         - split; [apply (len_top (set_processing false e1)); reflexivity|].
-          apply step_post_fin; [exact He1|].
+          apply step_post_fin; [reflexivity| |exact He1|].
+          { rewrite (step_obs_eq true (put_top (set_processing false e1) rest a1) store evs1 (set_processing false e1) rest (Delay us) eq_refl Hx1), Hraw. reflexivity. }
           rewrite (step_obs_eq true (put_top (set_processing false e1) rest a1) store evs1 (set_processing false e1) rest (Delay us) eq_refl Hx1).
           apply (fin_case (Delay us) (set_processing false e1) (put_top (set_processing false e1) rest a1) d store s _ Hx eq_refl Eb Ep Epl Hpl1
-                          (conj eq_refl Ei) He1 Hc1); [|exact Hargs1|exact Hxm].
+                          (conj eq_refl Ei) He1 Hc1 Ha1 Hh1); [|exact Hargs1|exact Hxm].
           unfold cur_resid. apply X_delay. cbn [a_delay_start put_top set_exec].
           apply orb_true_iff in C as [C|C]; [left; exact C|right; apply Z.leb_le in C; exact C].
         - split; [apply (len_top e1); reflexivity|].
-          apply step_post_stall. exists s. split; [split; [exact Hargs1|right; exact Hxm]|].
+          apply step_post_stall; [reflexivity| |discriminate|].
+          { rewrite (step_obs_eq false (put_top e1 rest a1) store evs1 e1 rest (Delay us) eq_refl Hx1), Hraw. reflexivity. } exists s. split; [split; [exact Hargs1|right; exact Hxm]|].
           rewrite (step_obs_eq false (put_top e1 rest a1) store evs1 e1 rest (Delay us) eq_refl Hx1).
           apply (stall_case (Delay us) e1 (put_top e1 rest a1) _ s Hx eq_refl Eb Ep Epl); auto.
-          + split; [unfold mode_ok; rewrite Hx1; exact Ei|split; [exact Hpl1|]]. unfold lv_ok in *. rewrite Eb. exact Hlv.
+          + split; [unfold mode_ok; rewrite Hx1; exact Ei|split; [exact Hpl1|]]. unfold lv_ok in *. rewrite Eb, Epl. exact Hlv.
           + apply after_tincl. unfold cur_resid. rewrite Epl. exact (tincl_refl _). }
       unfold process_delay in H. destruct (c_processing e) eqn:Ep.
-      - apply (G a e [] Herr eq_refl eq_refl eq_refl eq_refl eq_refl Hm Hpl H).
-      - apply (G (set_delay_start now a) (set_processing true e) _ Herr eq_refl eq_refl eq_refl eq_refl eq_refl Hm Hpl H).
+      - apply (G a e [] Herr eq_refl eq_refl eq_refl eq_refl eq_refl eq_refl Hm Hpl eq_refl H).
+      - apply (G (set_delay_start now a) (set_processing true e) _ Herr eq_refl eq_refl eq_refl eq_refl eq_refl eq_refl Hm Hpl (raw_tele _ _) H).
     Qed.
 
     (* ----- setplugstate / setresult ----- *)
@@ -537,9 +598,9 @@ Section Sim.
                      = state_effect rmatch devplugs (c_plugs e) lit pmp smp ints s).
       { unfold state_effect. cbn [ss_xm]. rewrite Hxm. reflexivity. }
       rewrite Heff. set (eff := state_effect rmatch devplugs (c_plugs e) lit pmp smp ints s).
-      split; [lia|]. apply step_post_fin; [exact Herr|].
+      split; [lia|]. apply step_post_fin; [reflexivity|rewrite (step_obs_eq true a (state_args eff) [] e rest _ Ex Hx); reflexivity|exact Herr|].
       rewrite (step_obs_eq true a (state_args eff) [] e rest _ Ex Hx).
-      apply (fin_case _ e a d (state_args eff) (record_state eff s) _ Hx Ex eq_refl eq_refl eq_refl Hpl Hm Herr eq_refl).
+      apply (fin_case _ e a d (state_args eff) (record_state eff s) _ Hx Ex eq_refl eq_refl eq_refl Hpl Hm Herr eq_refl eq_refl eq_refl).
       - unfold cur_resid. rewrite state_args_sem. apply X_setplugstate. reflexivity.
       - symmetry. apply state_args_sem.
       - rewrite record_state_xm. exact Hxm.
@@ -548,19 +609,19 @@ Section Sim.
     Lemma setresult_closed pmp smp ints fin d' a' store' evs :
       process_setresult rmatch d a store e pmp smp ints = Ok (fin, d', a', store', evs) ->
       fin = true /\ d' = d /\ a' = a /\
-      store' = result_args (result_effect rmatch devplugs pmp smp ints (mkSst (ss_args s) (model_xm d))).
+      store' = result_args (result_effect rmatch devplugs pmp smp ints (mkSst (ss_args s) (model_xm d))) /\ raw_sent evs = [].
     Proof.
       unfold process_setresult, result_effect, result_args. rewrite !sub_strdup_sem. cbn [ss_xm].
-      destruct (capture (model_xm d) pmp) as [pn|]; [|intros H; injection H as <- <- <- <- <-; auto].
+      destruct (capture (model_xm d) pmp) as [pn|]; [|intros H; injection H as <- <- <- <- <-; repeat split; auto].
       pose proof (find_plug_sem d pn) as Hf. rewrite Hdp in Hf. rewrite <- Hf.
-      destruct (capture (model_xm d) smp) as [str|]; [|intros H; injection H as <- <- <- <- <-; auto].
-      destruct (find_plug d pn) as [[p0 node]|]; [|intros H; injection H as <- <- <- <- <-; auto].
+      destruct (capture (model_xm d) smp) as [str|]; [|intros H; injection H as <- <- <- <- <-; repeat split; auto].
+      destruct (find_plug d pn) as [[p0 node]|]; [|intros H; injection H as <- <- <- <- <-; repeat split; auto].
       cbv zeta. rewrite first_interp_sem.
-      destruct (a_args a); [|intros H; injection H as <- <- <- <- <-; auto].
-      destruct (get_args store a) as [al|]; [|intros H; injection H as <- <- <- <- <-; auto].
-      destruct (arg_find al node); [|intros H; injection H as <- <- <- <- <-; auto].
-      destruct (Z.eqb _ RT_SUCCESS); [intros H; injection H as <- <- <- <- <-; auto|].
-      destruct (a_hasdiag a); [intros H; injection H as <- <- <- <- <-; auto|discriminate].
+      destruct (a_args a); [|intros H; injection H as <- <- <- <- <-; repeat split; auto].
+      destruct (get_args store a) as [al|]; [|intros H; injection H as <- <- <- <- <-; repeat split; auto].
+      destruct (arg_find al node); [|intros H; injection H as <- <- <- <- <-; repeat split; auto].
+      destruct (Z.eqb _ RT_SUCCESS); [intros H; injection H as <- <- <- <- <-; repeat split; auto|].
+      destruct (a_hasdiag a); [intros H; injection H as <- <- <- <- <-; repeat split; auto|discriminate].
     Qed.
 
     Lemma setresult_sim pmp smp ints fin d' a' store' evs :
@@ -569,14 +630,14 @@ Section Sim.
       (length (a_exec a') <= length (a_exec a))%nat /\ step_post now d a s fin d' a' store' evs.
     Proof.
       intros Hx Hxm H. pose proof Hok as (Hm & Hpl & Hlv). unfold mode_ok in Hm. rewrite Hx in Hm.
-      apply setresult_closed in H. destruct H as (-> & -> & -> & ->).
+      apply setresult_closed in H. destruct H as (-> & -> & -> & -> & Hraw).
       assert (Heff : result_effect rmatch devplugs pmp smp ints (mkSst (ss_args s) (model_xm d))
                      = result_effect rmatch devplugs pmp smp ints s).
       { unfold result_effect. cbn [ss_xm]. rewrite Hxm. reflexivity. }
       rewrite Heff. set (eff := result_effect rmatch devplugs pmp smp ints s).
-      split; [lia|]. apply step_post_fin; [exact Herr|].
+      split; [lia|]. apply step_post_fin; [reflexivity|rewrite (step_obs_eq true a (result_args eff) evs e rest _ Ex Hx), Hraw; reflexivity|exact Herr|].
       rewrite (step_obs_eq true a (result_args eff) evs e rest _ Ex Hx).
-      apply (fin_case _ e a d (result_args eff) (record_result eff s) _ Hx Ex eq_refl eq_refl eq_refl Hpl Hm Herr eq_refl).
+      apply (fin_case _ e a d (result_args eff) (record_result eff s) _ Hx Ex eq_refl eq_refl eq_refl Hpl Hm Herr eq_refl eq_refl eq_refl).
       - unfold cur_resid. rewrite result_args_sem. apply X_setresult. reflexivity.
       - symmetry. apply result_args_sem.
       - rewrite record_result_xm. exact Hxm.
@@ -650,23 +711,28 @@ Section Sim.
         apply (push_case _ (set_plugitr (Some i') e0)
                          (set_exec (new_ctx body (Some [p]) :: set_plugitr (Some i') e0 :: rest) a) body (Some [p])
                          Hx eq_refl Hne); auto.
-        + apply body_levels. destruct on; auto.
+        + destruct on; auto.
         + split; [|split].
           * unfold mode_ok. assert (Ec : cur (set_plugitr (Some i') e0) = cur e) by (unfold cur; cbn [c_block c_pos set_plugitr]; rewrite Eb, Ep; reflexivity).
             rewrite Ec, Hx. destruct on; cbn [c_processing set_plugitr]; rewrite Epr; exact Hpr.
           * split; [exact Hq1|intros Hr _; apply Hq2; exact Hr].
-          * unfold lv_ok in *. cbn [c_block set_plugitr]. rewrite Eb. exact Hlv.
+          * unfold lv_ok in *. cbn [c_block c_plugs set_plugitr]. rewrite Eb, Epl. exact Hlv.
+        + discriminate.
         + rewrite !cur_resid_foreach. cbn [c_plugs set_plugitr]. rewrite Epl.
           change (itr (set_plugitr (Some i') e0)) with i'. rewrite Hn. apply after_tincl. apply iter_cons.
       - right. split; [apply (len_top (set_plugitr None e0)); reflexivity|].
-        apply step_post_fin; [exact Herr|].
         assert (Ec : cur (set_plugitr None e0) = cur e) by (unfold cur; cbn [c_block c_pos set_plugitr]; rewrite Eb, Ep; reflexivity).
+        apply step_post_fin; [reflexivity| |exact Herr|].
+        { rewrite (step_obs_nil true (put_top (set_plugitr None e0) rest a) store [] (set_plugitr None e0) rest _ eq_refl (eq_trans Ec Hx))
+            by (destruct on; exact I). reflexivity. }
         rewrite (step_obs_nil true (put_top (set_plugitr None e0) rest a) store [] (set_plugitr None e0) rest _ eq_refl (eq_trans Ec Hx))
           by (destruct on; exact I).
         apply (fin_case _ (set_plugitr None e0) (put_top (set_plugitr None e0) rest a) d store s [] Hx eq_refl Eb Ep Epl).
         + split; [exact Hq1|intros _ K; exfalso; apply K; reflexivity].
         + split; [cbn [c_processing set_plugitr]; rewrite Epr; exact Hpr|reflexivity].
         + exact Herr.
+        + reflexivity.
+        + reflexivity.
         + reflexivity.
         + rewrite cur_resid_foreach, Hn. apply I_nil.
         + exact Hargs.
@@ -701,10 +767,11 @@ Section Sim.
       destruct (c_processing e) eqn:Epr.
       - rewrite (process_ifonoff_return d a store e rest want body Epr) in H. injection H as <- <- <- <- <-.
         right. split; [apply (len_top (set_processing false e)); reflexivity|].
-        apply step_post_fin; [exact Herr|].
+        apply step_post_fin; [reflexivity| |exact Herr|].
+        { rewrite (step_obs_nil true (put_top (set_processing false e) rest a) store [] (set_processing false e) rest _ eq_refl Hx Kx). reflexivity. }
         rewrite (step_obs_nil true (put_top (set_processing false e) rest a) store [] (set_processing false e) rest _ eq_refl Hx Kx).
         apply (fin_case _ (set_processing false e) (put_top (set_processing false e) rest a) d store s [] Hx eq_refl eq_refl eq_refl eq_refl Hpl
-                        (conj eq_refl Hi) Herr eq_refl); [|exact Hargs|exact Hxm].
+                        (conj eq_refl Hi) Herr eq_refl eq_refl eq_refl); [|exact Hargs|exact Hxm].
         unfold cur_resid. destruct want; rewrite Epr; repeat split.
       - rewrite (process_ifonoff_closed d a store e rest want body Epr) in H. cbv zeta in H.
         rewrite plug_state_sem, <- Hargs, cond_spec in H.
@@ -714,9 +781,10 @@ Section Sim.
           apply (push_case _ (set_processing true e)
                            (set_exec (new_ctx body (match c_plugs e with Some ps => Some ps | None => Some [] end) :: set_processing true e :: rest) a)
                            body (match c_plugs e with Some ps => Some ps | None => Some [] end) Hx eq_refl Hne); auto.
-          * apply body_levels. destruct want; auto.
+          * destruct want; auto.
           * split; [|split; [exact Hpl|exact Hlv]]. unfold mode_ok. change (cur (set_processing true e)) with (cur e). rewrite Hx.
             destruct want; exact Hi.
+          * destruct (c_plugs e); discriminate.
           * eapply after_incl_r.
             { apply seq_mono; [exact (tincl_refl _)|]. intros s0 tr s' st K. exact K. }
             assert (Es : cur_resid (set_processing true e) (if want then IfOn body else IfOff body) = skip) by (destruct want; reflexivity).
@@ -728,84 +796,132 @@ Section Sim.
             destruct want; rewrite Epr; exact Hrun.
         + destruct (Z.eqb_spec (known_state (c_plugs e) (ss_args s)) ST_UNKNOWN) as [Eu|Nu]; injection H as <- <- <- <- <-; right.
           * split; [apply (len_top e); exact Ex|].
-            apply step_post_fail; [reflexivity| |].
+            apply step_post_fail; [reflexivity|reflexivity|reflexivity| |].
             -- exact (step_obs_nil true (set_err ACT_EEXPFAIL a) store [] e rest _ Ex Hx Kx).
             -- rewrite (resid_top _ Hx). right. split; [discriminate|]. right. split; [discriminate|].
                assert (Hf : xstmt (if want then IfOn body else IfOff body) (c_plugs e) s [] s Fail) by (apply if_fail; exact Eu).
                unfold cur_resid. destruct want; rewrite Epr; exact Hf.
           * split; [apply (len_top e); exact Ex|].
-            apply step_post_fin; [exact Herr|].
+            apply step_post_fin; [reflexivity|rewrite (step_obs_nil true a store [] e rest _ Ex Hx Kx); reflexivity|exact Herr|].
             rewrite (step_obs_nil true a store [] e rest _ Ex Hx Kx).
-            apply (fin_case _ e a d store s [] Hx Ex eq_refl eq_refl eq_refl Hpl (conj Epr Hi) Herr eq_refl); [|exact Hargs|exact Hxm].
+            apply (fin_case _ e a d store s [] Hx Ex eq_refl eq_refl eq_refl Hpl (conj Epr Hi) Herr eq_refl eq_refl eq_refl); [|exact Hargs|exact Hxm].
             assert (Hs : xstmt (if want then IfOn body else IfOff body) (c_plugs e) s [] s Done) by (apply if_skip; assumption).
             unfold cur_resid. destruct want; rewrite Epr; exact Hs.
     Qed.
   End Handlers.
 
+  (* ---------- totality of the handlers ---------- *)
+  Lemma send_total now d a store e rest fmt : fmt_valid fmt -> exists r, process_send compress now d a store e rest fmt = Ok r.
+  Proof.
+    intros Hv. unfold process_send. destruct (c_processing e).
+    - destruct (sd_to d); eexists; reflexivity.
+    - destruct (hsprintf1 fmt (send_arg compress e)) as [str|] eqn:E; [|exfalso; exact (Hv _ E)].
+      assert (Hfix : SEND_OVERRUN_ASSERT = false) by reflexivity.      (* source fact: no assert on overrun (F38) *)
+      destruct (Nat.ltb _ _); [rewrite Hfix|]; cbn [sd_to set_to]; match goal with |- context [match ?l with [] => _ | _ :: _ => _ end] => destruct l end; eexists; reflexivity.
+  Qed.
+  Lemma expect_total now d a store re : exists r, process_expect rmatch now d a store re = Ok r.
+  Proof.
+    unfold process_expect. cbn [sd_from set_xm]. destruct (sd_from d); [eexists; reflexivity|].
+    destruct (rmatch re _) as [pm|]; [|eexists; reflexivity].
+    destruct (nth_error pm 0) as [[[so eo]|]|]; eexists; reflexivity.
+  Qed.
+  Lemma delay_total now d a store e rest us : exists r, process_delay sc now d a store e rest us = Ok r.
+  Proof.
+    unfold process_delay. destruct (c_processing e); match goal with |- context [if ?c then _ else _] => destruct c end; eexists; reflexivity.
+  Qed.
+  Lemma setresult_total d a store e pmp smp ints : (a_args a <> None -> a_hasdiag a = true) ->
+    exists r, process_setresult rmatch d a store e pmp smp ints = Ok r.
+  Proof.
+    intros Hd. unfold process_setresult. rewrite !sub_strdup_sem.
+    destruct (capture (model_xm d) pmp) as [pn|]; [|eexists; reflexivity].
+    destruct (capture (model_xm d) smp) as [str|]; [|eexists; reflexivity].
+    destruct (find_plug d pn) as [[p0 node]|]; [|eexists; reflexivity]. cbv zeta.
+    destruct (a_args a) as [i|] eqn:Ea; [|eexists; reflexivity].
+    destruct (get_args store a) as [al|]; [|eexists; reflexivity].
+    destruct (arg_find al node); [|eexists; reflexivity].
+    destruct (Z.eqb _ RT_SUCCESS); [eexists; reflexivity|].
+    rewrite Hd by discriminate. eexists; reflexivity.
+  Qed.
+  Lemma foreach_total d a store e rest on body : is_ranged_com (a_com a) = ranged -> (ranged = true -> c_plugs e <> None) ->
+    exists r, process_foreach d a store e rest on body = Ok r.
+  Proof.
+    intros Hrg Hp. unfold process_foreach. rewrite Hrg.
+    destruct (c_plugitr e); [cbv beta iota zeta; destruct (next_plug _ _ _) as [[? ?]|]; eexists; reflexivity|].
+    destruct ranged.
+    - destruct (c_plugs e) as [ps|]; [|exfalso; now apply Hp].
+      cbv beta iota zeta. destruct (next_plug _ _ _) as [[? ?]|]; eexists; reflexivity.
+    - cbv beta iota zeta. destruct (next_plug _ _ _) as [[? ?]|]; eexists; reflexivity.
+  Qed.
+  Lemma ifonoff_total d a store e rest want body : exists r, process_ifonoff d a store e rest want body = Ok r.
+  Proof.
+    destruct (c_processing e) eqn:Ep.
+    - rewrite (process_ifonoff_return d a store e rest want body Ep). eexists; reflexivity.
+    - rewrite (process_ifonoff_closed d a store e rest want body Ep). cbv zeta.
+      destruct (_ || _); eexists; reflexivity.
+  Qed.
+
   (* ---------- one process_stmt call ---------- *)
   Definition good (d : sdev) (a : action) : Prop :=
-    wf_action compress (sd_plugs d) a /\ inv_to d a /\ sd_plugs d = devplugs /\ frame a.
+    (args0 <> None -> diag0 = true) /\ sd_plugs d = devplugs /\ frame a /\ a_exec a <> [].
 
   Lemma stmt_sim now d a store s :
     good d a -> srel s d a store ->
     exists fin d' a' store' evs t,
       process_stmt rmatch compress sc now d a store = Ok ((fin, d', a', store', evs), t) /\
-      stmt_post compress d a store fin d' a' store' evs t /\
       sim_post now d a store s fin d' a' store' evs /\
       ((length (a_exec a) < length (a_exec a'))%nat -> ss_xm s = model_xm d).
   Proof.
-    intros (Hwf & Hto & Hdp & Hrg & Hctx & Herr & Hbase) (Hargs & Hxm0).
-    pose proof (process_stmt_props rmatch compress sc now d a store Hwf Hto) as P.
-    destruct (process_stmt rmatch compress sc now d a store) as [[[[[[fin d'] a'] store'] evs] t]| | | |] eqn:E; try contradiction.
-    exists fin, d', a', store', evs, t. split; [reflexivity|]. split; [exact P|].
-    destruct Hwf as (Hne & Hwctx & Hdiag). destruct (a_exec a) as [|e rest] eqn:Ex; [congruence|].
+    intros (Hdg & Hdp & (Hrg & Hctx & Herr & Hbase & Ha0 & Hh0) & Hne) (Hargs & Hxm0).
+    destruct (a_exec a) as [|e rest] eqn:Ex; [congruence|].
     pose proof (Forall_inv Hctx) as Hok. pose proof (Forall_inv_tail Hctx) as Hrest.
     assert (Hbase' : base_ok (a_exec a)) by (rewrite Ex; exact Hbase).
-    pose proof (Forall_inv Hwctx) as Hwe. destruct Hwe as ((x & Hx) & Hwe).
-    assert (Hws : wf_stmt compress (sd_plugs d) x).
-    { destruct Hwe as ((_ & Hb) & _). unfold cur in Hx. apply nth_error_In in Hx. rewrite Forall_forall in Hb. now apply Hb. }
-    unfold process_stmt in E. rewrite Ex, Hx in E.
+    destruct (mode_ok_cur e (proj1 Hok)) as (x & Hx).
+    destruct Hok as (Hm0 & Hpl0 & (Hlv0 & (Hbne & Hbf) & Hrp)).
+    assert (Hok : ctx_ok e) by (split; [exact Hm0|split; [exact Hpl0|split; [exact Hlv0|split; [split; assumption|exact Hrp]]]]).
+    assert (Hsw : swf x).
+    { unfold cur in Hx. apply nth_error_In in Hx. rewrite Forall_forall in Hbf. now apply Hbf. }
+    assert (Hdiag : a_args a <> None -> a_hasdiag a = true) by (rewrite Ha0, Hh0; exact Hdg).
+    unfold process_stmt. rewrite Ex, Hx.
     assert (Hxm : (forall re, x <> Expect re) -> ss_xm s = model_xm d).
     { intros Hn. destruct Hxm0 as [(e0 & r0 & re & E1 & E2)|K]; [|exact K].
       rewrite Ex in E1. injection E1 as <- <-. rewrite Hx in E2. injection E2 as ->. exfalso. now apply (Hn re). }
     destruct x as [fmt|re|lit pmp smp ints|pmp smp ints|us|body|body|body|body].
-    - destruct (process_send compress now d a store e rest fmt) as [[[[[f1 d1] a1] st1] ev1]| | | |] eqn:E1; cbn [omap bind] in E; try discriminate E.
-      injection E as <- <- <- <- <- <-.
+    - destruct (send_total now d a store e rest fmt Hsw) as ([[[[f1 d1] a1] st1] ev1] & E1).
+      exists f1, d1, a1, st1, ev1, None. rewrite E1. split; [reflexivity|].
       assert (K : (length (a_exec a1) <= length (e :: rest))%nat /\ step_post now d a s f1 d1 a1 st1 ev1).
       { rewrite <- Ex. eapply send_sim; eauto. apply Hxm. discriminate. }
       split; [right; rewrite Ex; exact K|]. intros L. apply Hxm. discriminate.
-    - destruct (process_expect rmatch now d a store re) as [[[[[f1 d1] a1] st1] ev1]| | | |] eqn:E1; cbn [omap bind] in E; try discriminate E.
-      injection E as <- <- <- <- <- <-.
+    - destruct (expect_total now d a store re) as ([[[[f1 d1] a1] st1] ev1] & E1).
+      exists f1, d1, a1, st1, ev1, None. rewrite E1. split; [reflexivity|].
       assert (K : (length (a_exec a1) <= length (e :: rest))%nat /\ step_post now d a s f1 d1 a1 st1 ev1).
       { rewrite <- Ex. eapply expect_sim; eauto. }
-      split; [right; rewrite Ex; exact K|]. intros L. destruct K as [K _]. lia.
-    - destruct (process_setplugstate rmatch d a store e lit pmp smp ints) as [[[[[f1 d1] a1] st1] ev1]| | | |] eqn:E1; cbn [omap bind] in E; try discriminate E.
-      injection E as <- <- <- <- <- <-.
-      assert (K : (length (a_exec a1) <= length (e :: rest))%nat /\ step_post now d a s f1 d1 a1 st1 ev1).
-      { rewrite <- Ex. eapply setplugstate_sim; eauto. apply Hxm. discriminate. }
-      split; [right; rewrite Ex; exact K|]. intros L. apply Hxm. discriminate.
-    - destruct (process_setresult rmatch d a store e pmp smp ints) as [[[[[f1 d1] a1] st1] ev1]| | | |] eqn:E1; cbn [omap bind] in E; try discriminate E.
-      injection E as <- <- <- <- <- <-.
-      assert (K : (length (a_exec a1) <= length (e :: rest))%nat /\ step_post now d a s f1 d1 a1 st1 ev1).
-      { rewrite <- Ex. eapply setresult_sim; eauto. apply Hxm. discriminate. }
-      split; [right; rewrite Ex; exact K|]. intros L. apply Hxm. discriminate.
-    - assert (K : (length (a_exec a') <= length (e :: rest))%nat /\ step_post now d a s fin d' a' store' evs).
-      { rewrite <- Ex. eapply delay_sim; eauto. apply Hxm. discriminate. }
-      split; [right; rewrite Ex; exact K|]. intros L. apply Hxm. discriminate.
-    - destruct (process_foreach d a store e rest false body) as [[[[[f1 d1] a1] st1] ev1]| | | |] eqn:E1; cbn [omap bind] in E; try discriminate E.
-      injection E as <- <- <- <- <- <-. cbn [wf_stmt] in Hws. destruct Hws as [Hnb _].
+      split; [right; rewrite Ex; exact K|]. intros L. destruct K as [K _]. cbn [length] in *. lia.
+    - pose proof (setplugstate_closed d a store s e Hdp Hargs Ha0 lit pmp smp ints) as E1.
+      eexists _, _, _, _, _, None. rewrite E1. split; [reflexivity|].
+      split; [|intros L; apply Hxm; discriminate]. right.
+      eapply setplugstate_sim; eauto. apply Hxm. discriminate.
+    - destruct (setresult_total d a store e pmp smp ints Hdiag) as ([[[[f1 d1] a1] st1] ev1] & E1).
+      exists f1, d1, a1, st1, ev1, None. rewrite E1. split; [reflexivity|].
+      split; [|intros L; apply Hxm; discriminate]. right.
+      eapply setresult_sim; eauto. apply Hxm. discriminate.
+    - destruct (delay_total now d a store e rest us) as ([[[[[f1 d1] a1] st1] ev1] t1] & E1).
+      exists f1, d1, a1, st1, ev1, t1. rewrite E1. split; [reflexivity|].
+      split; [|intros L; apply Hxm; discriminate]. right.
+      eapply delay_sim; eauto. apply Hxm. discriminate.
+    - destruct (foreach_total d a store e rest false body Hrg Hrp) as ([[[[f1 d1] a1] st1] ev1] & E1).
+      exists f1, d1, a1, st1, ev1, None. rewrite E1. split; [reflexivity|]. cbn [swf] in Hsw. destruct Hsw as [Hnb _].
       split; [|intros L; apply Hxm; discriminate].
       eapply foreach_sim with (on := false); eauto. apply Hxm. discriminate.
-    - destruct (process_foreach d a store e rest true body) as [[[[[f1 d1] a1] st1] ev1]| | | |] eqn:E1; cbn [omap bind] in E; try discriminate E.
-      injection E as <- <- <- <- <- <-. cbn [wf_stmt] in Hws. destruct Hws as [Hnb _].
+    - destruct (foreach_total d a store e rest true body Hrg Hrp) as ([[[[f1 d1] a1] st1] ev1] & E1).
+      exists f1, d1, a1, st1, ev1, None. rewrite E1. split; [reflexivity|]. cbn [swf] in Hsw. destruct Hsw as [Hnb _].
       split; [|intros L; apply Hxm; discriminate].
       eapply foreach_sim with (on := true); eauto. apply Hxm. discriminate.
-    - destruct (process_ifonoff d a store e rest true body) as [[[[[f1 d1] a1] st1] ev1]| | | |] eqn:E1; cbn [omap bind] in E; try discriminate E.
-      injection E as <- <- <- <- <- <-. cbn [wf_stmt] in Hws. destruct Hws as [Hnb _].
+    - destruct (ifonoff_total d a store e rest true body) as ([[[[f1 d1] a1] st1] ev1] & E1).
+      exists f1, d1, a1, st1, ev1, None. rewrite E1. split; [reflexivity|]. cbn [swf] in Hsw. destruct Hsw as [Hnb _].
       split; [|intros L; apply Hxm; discriminate].
       eapply ifonoff_sim with (want := true); eauto. apply Hxm. discriminate.
-    - destruct (process_ifonoff d a store e rest false body) as [[[[[f1 d1] a1] st1] ev1]| | | |] eqn:E1; cbn [omap bind] in E; try discriminate E.
-      injection E as <- <- <- <- <- <-. cbn [wf_stmt] in Hws. destruct Hws as [Hnb _].
+    - destruct (ifonoff_total d a store e rest false body) as ([[[[f1 d1] a1] st1] ev1] & E1).
+      exists f1, d1, a1, st1, ev1, None. rewrite E1. split; [reflexivity|]. cbn [swf] in Hsw. destruct Hsw as [Hnb _].
       split; [|intros L; apply Hxm; discriminate].
       eapply ifonoff_sim with (want := false); eauto. apply Hxm. discriminate.
   Qed.
@@ -815,79 +931,62 @@ Section Sim.
     after (resid (a_exec a)) s [] (resid (a_exec a1)) s ->
     step_post now d a1 s fin d' a' store' evs -> step_post now d a s fin d' a' store' evs.
   Proof.
-    intros Haft H. unfold step_post in *. cbv zeta in *. destruct fin.
+    intros Haft H. unfold step_post in *. cbv zeta in *. destruct H as (Hp & Hb & H). split; [exact Hp|]. split; [exact Hb|]. destruct fin.
     - destruct (Z.eqb (a_err a') ACT_ESUCCESS).
       + destruct H as (s1 & H1 & H2 & H3). exists s1. split; [exact H1|]. split; [exact H2|].
         exact (after_trans _ _ [] _ _ _ _ _ Haft H3).
       + destruct H as (Ho & Hf). split; [exact Ho|]. exact (Haft [] s Fail Hf).
-    - destruct H as (s1 & H1 & H2 & H3). exists s1. split; [exact H1|]. split; [exact H2|].
+    - destruct H as (Hn & s1 & H1 & H2 & H3). split; [exact Hn|]. exists s1. split; [exact H1|]. split; [exact H2|].
       exact (after_trans _ _ [] _ _ _ _ _ Haft H3).
   Qed.
 
   Lemma block_levels_pos b : (1 <= block_levels b)%nat.
   Proof. unfold block_levels. lia. Qed.
 
+  (* the fuel of the model's do..while (8) is never exhausted for scripts of at most 8 nesting levels *)
   Lemma do_while_sim : forall fuel now d a store s acc tmo,
     good d a -> srel s d a store ->
     (exists e rest, a_exec a = e :: rest /\ (block_levels (c_block e) <= fuel)%nat) ->
     exists fin d' a' store' evs1 t,
       do_while rmatch compress sc fuel now d a store acc tmo = Ok ((fin, d', a', store', acc ++ evs1), t) /\
-      step_post now d a s fin d' a' store' evs1 /\
-      sd_plugs d' = sd_plugs d /\ wf_action compress (sd_plugs d) a' /\
-      (fin = true -> sd_to d' = []) /\ (fin = false -> inv_to d' a') /\
-      sd_to d' = sd_to d ++ sent_bytes evs1.
+      step_post now d a s fin d' a' store' evs1.
   Proof.
     induction fuel as [|f IH]; intros now d a store s acc tmo Hg Hs (e & rest & Ex & Hlv).
     { pose proof (block_levels_pos (c_block e)). lia. }
     cbn [do_while].
-    destruct (stmt_sim now d a store s Hg Hs) as (fin & d1 & a1 & st1 & ev1 & t1 & E & P & Hsim & Hxm).
+    destruct (stmt_sim now d a store s Hg Hs) as (fin & d1 & a1 & st1 & ev1 & t1 & E & Hsim & Hxm).
     rewrite E. destruct Hsim as [[Hlen Hpush]|[Hlen Hstep]].
     - destruct (Nat.ltb_spec (length (a_exec a)) (length (a_exec a1))) as [_|L]; [|lia].
       destruct Hpush as (-> & -> & -> & Hfr & Hargs' & Haft & (c & r & e0 & r0 & Ea1 & Ea & Hlv1)).
-      destruct Hg as (Hwf & Hto & Hdp & Hfr0). destruct Hs as (Hsa & _).
-      assert (Hg1 : good d a1).
-      { split; [exact (sp_wf _ _ _ _ _ _ _ _ _ _ P)|]. split; [|split; [exact Hdp|exact Hfr]].
-        destruct fin; [left; apply (sp_fin _ _ _ _ _ _ _ _ _ _ P); reflexivity|apply (sp_stall _ _ _ _ _ _ _ _ _ _ P); reflexivity]. }
+      destruct Hg as (Hdg & Hdp & Hfr0 & Hne). destruct Hs as (Hsa & _).
+      assert (Hg1 : good d a1) by (split; [exact Hdg|split; [exact Hdp|split; [exact Hfr|rewrite Ea1; discriminate]]]).
       assert (Hs1 : srel s d a1 store).
       { split; [rewrite Hsa; symmetry; apply get_args_same; exact Hargs'|right; apply Hxm; exact Hlen]. }
       assert (Hl1 : exists e1 rest1, a_exec a1 = e1 :: rest1 /\ (block_levels (c_block e1) <= f)%nat).
       { exists c, r. split; [exact Ea1|]. rewrite Ex in Ea. injection Ea as <- <-. lia. }
       destruct (IH now d a1 store s (acc ++ []) (min_tmo tmo t1) Hg1 Hs1 Hl1)
-        as (fin2 & d2 & a2 & st2 & ev2 & t2 & E2 & Hstep2 & Q1 & Q2 & Q3 & Q4 & Q5).
+        as (fin2 & d2 & a2 & st2 & ev2 & t2 & E2 & Hstep2).
       exists fin2, d2, a2, st2, ev2, t2. rewrite E2, app_nil_r. split; [reflexivity|].
-      split; [exact (step_post_lift now d a a1 s fin2 d2 a2 st2 ev2 Haft Hstep2)|]. auto.
+      exact (step_post_lift now d a a1 s fin2 d2 a2 st2 ev2 Haft Hstep2).
     - destruct (Nat.ltb_spec (length (a_exec a)) (length (a_exec a1))) as [L|_]; [lia|].
-      exists fin, d1, a1, st1, ev1, (min_tmo tmo t1). split; [reflexivity|]. split; [exact Hstep|].
-      split; [exact (sp_plugs _ _ _ _ _ _ _ _ _ _ P)|]. split; [exact (sp_wf _ _ _ _ _ _ _ _ _ _ P)|].
-      split; [exact (sp_fin _ _ _ _ _ _ _ _ _ _ P)|]. split; [exact (sp_stall _ _ _ _ _ _ _ _ _ _ P)|].
-      exact (sp_sent _ _ _ _ _ _ _ _ _ _ P).
+      exists fin, d1, a1, st1, ev1, (min_tmo tmo t1). split; [reflexivity|exact Hstep].
   Qed.
 
   (* ---------- nothing observed yet is always a (cut) trace of what remains ---------- *)
   Lemma resid_cut d a s : good d a -> resid (a_exec a) s [] s Cut.
   Proof.
-    intros ((Hne & Hwctx & _) & _). destruct (a_exec a) as [|e rest]; [congruence|].
-    pose proof (Forall_inv Hwctx) as ((x & Hx) & _).
+    intros (_ & _ & (_ & Hc & _) & Hne). destruct (a_exec a) as [|e rest]; [congruence|].
+    destruct (mode_ok_cur e (proj1 (Forall_inv Hc))) as (x & Hx).
     cbn [resid]. right. split; [discriminate|]. unfold ctx_resid. rewrite Hx.
     assert (Ht : tail_resid e s [] s Cut) by apply B_cut.
     assert (Hs : forall R : trel, R s [] s Done -> seq R (tail_resid e) s [] s Cut).
     { intros R HR. left. exists [], s, []. auto. }
-    assert (Hc : forall R : trel, R s [] s Cut -> seq R (tail_resid e) s [] s Cut).
+    assert (Hk : forall R : trel, R s [] s Cut -> seq R (tail_resid e) s [] s Cut).
     { intros R HR. right. split; [discriminate|exact HR]. }
     assert (Hi : forall body l, seq (xiter body l) (tail_resid e) s [] s Cut).
-    { intros body [|p l]; [apply Hs, I_nil|apply Hc, I_stop; [discriminate|apply B_cut]]. }
-    unfold cur_resid. destruct x; try (apply Hc, X_cut); try apply Hi;
-      (destruct (c_processing e); [apply Hs; repeat split|apply Hc, X_cut]).
-  Qed.
-
-  Lemma advance_wf plugs a : wf_action compress plugs a -> a_exec (advance a) <> [] -> wf_action compress plugs (advance a).
-  Proof.
-    intros (Hne & Hc & Hd) Hn. unfold advance in *. destruct (a_exec a) as [|e rest] eqn:Ex; [congruence|]. cbv zeta in *.
-    pose proof (Forall_inv Hc) as He. pose proof (Forall_inv_tail Hc) as Hr.
-    destruct (cur (set_pos (S (c_pos e)) e)) as [y|] eqn:Ey; cbn [a_exec set_exec a_com a_args a_hasdiag] in *.
-    - split; [discriminate|]. split; [|exact Hd]. constructor; [|exact Hr].
-      destruct He as (_ & Hb & Hp & Hq & Hrg). split; [exists y; exact Ey|]. repeat split; auto; apply Hb.
-    - split; [exact Hn|]. split; [exact Hr|exact Hd].
+    { intros body [|p l]; [apply Hs, I_nil|apply Hk, I_stop; [discriminate|apply B_cut]]. }
+    unfold cur_resid. destruct x; try (apply Hk, X_cut); try apply Hi;
+      (destruct (c_processing e); [apply Hs; repeat split|apply Hk, X_cut]).
   Qed.
 
   (* ---------- a run: the environment moves, then one round + advance ---------- *)
@@ -924,107 +1023,167 @@ Section Sim.
         end
     end.
 
-  Definition Inv (script : list stmt) (ps : option (list plug)) (s0 : sst) (d : sdev) (a : action) (store : list arglist) (tr : list obs) : Prop :=
-    good d a /\ exists s, srel s d a store /\ after (xblock script ps) s0 tr (resid (a_exec a)) s.
+  Definition Inv (s0 : sst) (d : sdev) (a : action) (store : list arglist) (tr : list obs) : Prop :=
+    good d a /\ exists s, srel s d a store /\ after (xblock script0 ps0) s0 tr (resid (a_exec a)) s.
 
   Lemma env_step_good i d a : good d a -> good (env_step i d) a.
-  Proof.
-    intros (Hwf & Hto & Hdp & Hfr). split; [exact Hwf|]. split; [|split; [exact Hdp|exact Hfr]].
-    destruct Hto as [H|H]; [left|right; exact H]. unfold env_step. cbn [sd_to set_to]. rewrite H. now destruct (i_drain i).
-  Qed.
+  Proof. intros H. exact H. Qed.
 
   Lemma top_levels d a : good d a -> exists e rest, a_exec a = e :: rest /\ (block_levels (c_block e) <= 8)%nat.
   Proof.
-    intros ((Hne & _) & _ & _ & (_ & Hc & _)). destruct (a_exec a) as [|e rest]; [congruence|].
-    exists e, rest. split; [reflexivity|]. exact (proj2 (proj2 (Forall_inv Hc))).
+    intros (_ & _ & (_ & Hc & _) & Hne). destruct (a_exec a) as [|e rest]; [congruence|].
+    exists e, rest. split; [reflexivity|]. exact (proj1 (proj2 (proj2 (Forall_inv Hc)))).
   Qed.
 
-  Definition outcome_ok (script : list stmt) (ps : option (list plug)) (s0 : sst)
-             (st : rstatus) (d : sdev) (a : action) (store : list arglist) (tr : list obs) : Prop :=
+  Definition outcome_ok (s0 : sst) (st : rstatus) (d : sdev) (a : action) (store : list arglist) (tr : list obs) : Prop :=
     match st with
-    | Running => Inv script ps s0 d a store tr
-    | Completed => exists s', xblock script ps s0 tr s' Done /\ ss_args s' = get_args store a
-    | Failed => exists s', xblock script ps s0 tr s' Fail
+    | Running => Inv s0 d a store tr
+    | Completed => exists s', xblock script0 ps0 s0 tr s' Done /\ ss_args s' = get_args store a
+    | Failed => exists s', xblock script0 ps0 s0 tr s' Fail
     end.
 
-  Lemma step1_sim script ps s0 i d a store tr :
-    Inv script ps s0 d a store tr ->
+  Lemma step1_sim s0 i d a store tr :
+    Inv s0 d a store tr ->
     exists st d' a' store' o evs,
       step1 (i_now i) (env_step i d) a store = Ok (st, d', a', store', o, evs) /\
-      outcome_ok script ps s0 st d' a' store' (tr ++ o).
+      outcome_ok s0 st d' a' store' (tr ++ o) /\ sent_of o = raw_sent evs.
   Proof.
     intros (Hg & s & Hs & Haft).
     pose proof (env_step_good i d a Hg) as Hg1.
     assert (Hs1 : srel s (env_step i d) a store) by exact Hs.
     destruct (do_while_sim 8 (i_now i) (env_step i d) a store s [] None Hg1 Hs1 (top_levels _ _ Hg1))
-      as (fin & d' & a' & store' & evs1 & t & E & Hstep & Q1 & Q2 & Q3 & Q4 & Q5).
+      as (fin & d' & a' & store' & evs1 & t & E & Hstep).
     unfold step1. rewrite E. cbn [app]. cbv zeta.
-    destruct Hg1 as (_ & _ & Hdp & _).
-    unfold step_post in Hstep. cbv zeta in Hstep. destruct fin; cbn [negb].
+    destruct Hg1 as (Hdg & Hdp & _ & _).
+    unfold step_post in Hstep. cbv zeta in Hstep. destruct Hstep as (Hpl & Hby & Hstep). destruct fin; cbn [negb].
     - destruct (Z.eqb (a_err a') ACT_ESUCCESS).
       + destruct Hstep as (s1 & Hs' & Hfr & Haft').
         pose proof (after_trans _ _ _ _ _ _ _ _ Haft Haft') as Haft2.
         destruct (a_exec (advance a')) as [|e2 r2] eqn:Ea.
-        * eexists Completed, d', (advance a'), store', _, evs1. split; [reflexivity|].
+        * eexists Completed, d', (advance a'), store', _, evs1. split; [reflexivity|]. split; [|exact Hby].
           exists s1. split; [|exact (proj1 Hs')]. rewrite <- (app_nil_r (tr ++ _)). apply Haft2. repeat split.
-        * eexists Running, d', (advance a'), store', _, evs1. split; [reflexivity|].
+        * eexists Running, d', (advance a'), store', _, evs1. split; [reflexivity|]. split; [|exact Hby].
           split; [|exists s1; split; [exact Hs'|rewrite Ea; exact Haft2]].
-          split; [|split; [left; apply Q3; reflexivity|split; [rewrite Q1; exact Hdp|exact Hfr]]].
-          rewrite Q1. apply advance_wf; [exact Q2|]. rewrite Ea. discriminate.
-      + destruct Hstep as (Ho & Hf). eexists Failed, d', a', store', _, evs1. split; [reflexivity|].
+          split; [exact Hdg|]. split; [rewrite Hpl; exact Hdp|]. split; [exact Hfr|rewrite Ea; discriminate].
+      + destruct Hstep as (Ho & Hf). eexists Failed, d', a', store', _, evs1. split; [reflexivity|]. split; [|exact Hby].
         exists s. rewrite Ho. rewrite <- (app_nil_l []), app_assoc. rewrite app_nil_r. apply Haft. exact Hf.
-    - destruct Hstep as (s1 & Hs' & Hfr & Haft').
-      eexists Running, d', a', store', _, evs1. split; [reflexivity|].
+    - destruct Hstep as (Hn & s1 & Hs' & Hfr & Haft').
+      eexists Running, d', a', store', _, evs1. split; [reflexivity|]. split; [|exact Hby].
       split; [|exists s1; split; [exact Hs'|exact (after_trans _ _ _ _ _ _ _ _ Haft Haft')]].
-      split; [rewrite Q1; exact Q2|]. split; [apply Q4; reflexivity|]. split; [rewrite Q1; exact Hdp|exact Hfr].
+      split; [exact Hdg|]. split; [rewrite Hpl; exact Hdp|]. split; [exact Hfr|exact Hn].
   Qed.
 
-  Lemma run_sim script ps s0 : forall ins d a store tr raw,
-    Inv script ps s0 d a store tr ->
+  Lemma run_sim s0 : forall ins d a store tr raw,
+    Inv s0 d a store tr -> sent_of tr = raw_sent raw ->
     exists st d' a' store' tr' raw',
       run ins d a store tr raw = Ok (st, d', a', store', tr', raw') /\
-      outcome_ok script ps s0 st d' a' store' tr'.
+      outcome_ok s0 st d' a' store' tr' /\ sent_of tr' = raw_sent raw'.
   Proof.
-    induction ins as [|i r IH]; intros d a store tr raw HI.
-    - exists Running, d, a, store, tr, raw. split; [reflexivity|exact HI].
-    - cbn [run]. destruct (step1_sim script ps s0 i d a store tr HI) as (st & d' & a' & store' & o & evs & E & Hout).
-      rewrite E. destruct st.
-      + apply IH. exact Hout.
-      + eexists Completed, d', a', store', _, _. split; [reflexivity|exact Hout].
-      + eexists Failed, d', a', store', _, _. split; [reflexivity|exact Hout].
+    induction ins as [|i r IH]; intros d a store tr raw HI Hb.
+    - exists Running, d, a, store, tr, raw. split; [reflexivity|]. split; [exact HI|exact Hb].
+    - cbn [run]. destruct (step1_sim s0 i d a store tr HI) as (st & d' & a' & store' & o & evs & E & Hout & Hbo).
+      rewrite E.
+      assert (Hb' : sent_of (tr ++ o) = raw_sent (raw ++ evs)) by (rewrite sent_of_app, raw_sent_app, Hb, Hbo; reflexivity).
+      destruct st.
+      + apply IH; assumption.
+      + eexists Completed, d', a', store', _, _. split; [reflexivity|]. split; assumption.
+      + eexists Failed, d', a', store', _, _. split; [reflexivity|]. split; assumption.
   Qed.
 
   (* a running state has produced a cut trace: a prefix derivation of the script *)
-  Lemma inv_cut script ps s0 d a store tr :
-    Inv script ps s0 d a store tr -> exists s', xblock script ps s0 tr s' Cut /\ ss_args s' = get_args store a.
+  Lemma inv_cut s0 d a store tr :
+    Inv s0 d a store tr -> exists s', xblock script0 ps0 s0 tr s' Cut /\ ss_args s' = get_args store a.
   Proof.
     intros (Hg & s & Hs & Haft). exists s. split; [|exact (proj1 Hs)].
     rewrite <- (app_nil_r tr). apply Haft. exact (resid_cut d a s Hg).
   Qed.
 
   (* ---------- initial states: a freshly created action, and a rewound one ---------- *)
-  Definition fresh_like (script : list stmt) (ps : option (list plug)) (a : action) : Prop :=
-    exists e, a_exec a = [e] /\ c_block e = script0 /\ c_plugs e = ps0 /\ c_block e = script /\ c_plugs e = ps /\ c_pos e = O /\ clean e /\
+  Definition fresh_like (a : action) : Prop :=
+    exists e, a_exec a = [e] /\ c_block e = script0 /\ c_plugs e = ps0 /\ c_pos e = O /\ clean e /\
               (forall l, c_pluglist e = Some l -> c_plugs e = Some l).
 
-  Lemma fresh_inv script ps d a store :
-    fresh_like script ps a -> wf_action compress (sd_plugs d) a -> sd_to d = [] -> sd_plugs d = devplugs ->
-    is_ranged_com (a_com a) = ranged -> a_err a = ACT_ESUCCESS -> (block_levels script <= 8)%nat ->
-    Inv script ps (mkSst (get_args store a) (model_xm d)) d a store [].
+  (* what the theorem assumes about the script and the action (all of it guaranteed by the parser and by
+     dev_enqueue_actions: C17 / C18 / C01) *)
+  Definition start_ok (d : sdev) (a : action) : Prop :=
+    bwf script0 /\ (block_levels script0 <= 8)%nat /\ (ranged = true -> ps0 <> None) /\
+    (args0 <> None -> diag0 = true) /\
+    sd_plugs d = devplugs /\ is_ranged_com (a_com a) = ranged /\ a_err a = ACT_ESUCCESS /\
+    a_args a = args0 /\ a_hasdiag a = diag0.
+
+  Lemma fresh_inv d a store :
+    fresh_like a -> start_ok d a -> Inv (mkSst (get_args store a) (model_xm d)) d a store [].
   Proof.
-    intros (e & Ea & Eb0 & Eps0 & Eb & Eps & Epos & Hcl & Hpl) Hwf Hto Hdp Hrg Herr Hlv.
+    intros (e & Ea & Eb & Eps & Epos & Hcl & Hpl) (Hbw & Hlv & Hrp & Hdg & Hdp & Hrg & Herr & Ha & Hh).
     assert (Hx : exists x, cur e = Some x).
-    { destruct Hwf as (_ & Hc & _). rewrite Ea in Hc. exact (proj1 (Forall_inv Hc)). }
+    { unfold cur. rewrite Eb, Epos. destruct Hbw as (Hne & _). destruct script0 as [|x0 r]; [congruence|]. exists x0. reflexivity. }
     destruct Hx as (x & Hx).
     split.
-    - split; [exact Hwf|]. split; [left; exact Hto|]. split; [exact Hdp|]. split; [exact Hrg|].
-      split; [|split; [exact Herr|rewrite Ea; unfold base_ok; cbn [base]; auto]].
-      rewrite Ea. constructor; [|constructor]. split; [apply clean_mode_ok; exact Hcl|]. split.
+    - split; [exact Hdg|]. split; [exact Hdp|]. split; [|rewrite Ea; discriminate].
+      split; [exact Hrg|]. split; [|split; [exact Herr|split; [rewrite Ea; unfold base_ok; cbn [base]; auto|split; assumption]]].
+      rewrite Ea. constructor; [|constructor]. split; [exact (clean_mode_ok e x Hcl Hx)|]. split.
       + split; [exact Hpl|]. intros _ K. exfalso. apply K. exact (proj2 Hcl).
-      + unfold lv_ok. rewrite Eb. exact Hlv.
+      + unfold lv_ok. rewrite Eb, Eps. auto.
     - exists (mkSst (get_args store a) (model_xm d)). split; [split; [reflexivity|right; reflexivity]|].
       apply after_tincl. rewrite Ea. cbn [resid].
       eapply tincl_trans; [apply seq_skip_r|].
       pose proof (ctx_resid_clean e x Hcl Hx) as K. rewrite Epos, Eb, Eps in K. exact K.
+  Qed.
+
+  (* the whole run, from any action that starts at its first statement in the initial context state *)
+  Theorem run_refines d a store ins :
+    fresh_like a -> start_ok d a ->
+    exists st d' a' store' tr raw,
+      run ins d a store [] [] = Ok (st, d', a', store', tr, raw) /\
+      (exists s', xblock script0 ps0 (mkSst (get_args store a) (model_xm d)) tr s' (status_of st) /\
+                  (st <> Failed -> ss_args s' = get_args store' a')) /\
+      sent_of tr = raw_sent raw /\
+      (st = Running -> Inv (mkSst (get_args store a) (model_xm d)) d' a' store' tr).
+  Proof.
+    intros Hf Hst.
+    pose proof (fresh_inv d a store Hf Hst) as HI.
+    destruct (run_sim _ ins d a store [] [] HI eq_refl) as (st & d' & a' & store' & tr & raw & E & Hout & Hb).
+    exists st, d', a', store', tr, raw. split; [exact E|]. destruct st; cbn [outcome_ok status_of] in *.
+    - split; [|split; [exact Hb|intros _; exact Hout]]. destruct (inv_cut _ _ _ _ _ Hout) as (s' & H1 & H2). exists s'. auto.
+    - split; [|split; [exact Hb|discriminate]]. destruct Hout as (s' & H1 & H2). exists s'. auto.
+    - split; [|split; [exact Hb|discriminate]]. destruct Hout as (s' & H1). exists s'. split; [exact H1|]. intros K. congruence.
+  Qed.
+
+  (* _rewind_action: every reachable action, rewound, is again in the initial context state *)
+  Lemma rewind_fresh s0 d a store tr :
+    Inv s0 d a store tr ->
+    fresh_like (rewind_action a) /\
+    a_com (rewind_action a) = a_com a /\ a_err (rewind_action a) = a_err a /\ a_args (rewind_action a) = a_args a /\
+    a_hasdiag (rewind_action a) = a_hasdiag a.
+  Proof.
+    intros ((_ & _ & (_ & Hc & _ & Hb & _) & Hne) & _).
+    unfold rewind_action. pose proof (base_rev (a_exec a)) as Hr. unfold base_ok in Hb.
+    destruct (rev (a_exec a)) as [|outer r] eqn:Erev.
+    { exfalso. apply Hne. rewrite <- (rev_involutive (a_exec a)), Erev. reflexivity. }
+    cbn [hd_error] in Hr. rewrite Hr in Hb. destruct Hb as (Hb1 & Hb2).
+    pose proof (base_in _ _ Hr) as Hin.
+    rewrite Forall_forall in Hc. destruct (Hc outer Hin) as (_ & (Hp1 & _) & _).
+    cbn [a_exec set_exec a_com a_err a_args a_hasdiag]. repeat split; auto.
+    eexists. split; [reflexivity|]. cbn [c_block c_plugs c_pos c_pluglist set_processing set_plugitr set_pos].
+    repeat split; auto.
+  Qed.
+
+  Theorem rewind_refines s0 d a store tr d1 ins :
+    Inv s0 d a store tr -> sd_plugs d1 = devplugs -> bwf script0 -> (block_levels script0 <= 8)%nat -> (ranged = true -> ps0 <> None) ->
+    exists st d' a' store' tr2 raw,
+      run ins d1 (rewind_action a) store [] [] = Ok (st, d', a', store', tr2, raw) /\
+      (exists s', xblock script0 ps0 (mkSst (get_args store a) (model_xm d1)) tr2 s' (status_of st) /\
+                  (st <> Failed -> ss_args s' = get_args store' a')) /\
+      sent_of tr2 = raw_sent raw.
+  Proof.
+    intros HI Hdp1 Hbw Hlv Hrp.
+    destruct (rewind_fresh s0 d a store tr HI) as (Hf & Ec & Ee & Ea & Eh).
+    destruct HI as ((Hdg & _ & (Hrg & _ & Herr & _ & Ha & Hh) & _) & _).
+    assert (Hst : start_ok d1 (rewind_action a)).
+    { split; [exact Hbw|]. split; [exact Hlv|]. split; [exact Hrp|]. split; [exact Hdg|]. split; [exact Hdp1|].
+      split; [rewrite Ec; exact Hrg|]. split; [rewrite Ee; exact Herr|]. split; [rewrite Ea; exact Ha|rewrite Eh; exact Hh]. }
+    destruct (run_refines d1 (rewind_action a) store ins Hf Hst) as (st & d' & a' & store' & tr2 & raw & E & H & Hb & _).
+    exists st, d', a', store', tr2, raw. split; [exact E|]. split; [|exact Hb].
+    rewrite (get_args_same store a (rewind_action a) Ea) in H. exact H.
   Qed.
 End Sim.
